@@ -1,6 +1,6 @@
 (* C07 and C09 copy of Proofs/HarvestProofs.v for the repaired harvester (one-argument Result is descended into) *)
 From Coq Require Import String Ascii.
-From Coq Require Import List Arith Lia Bool.
+From Coq Require Import List Arith Lia Bool ZArith.
 Require Import TT.Model.Str TT.Proofs.StrFacts TT.Model.C07TypeParse TT.Proofs.C07TypeParseProofs TT.Model.C07Harvest.
 Import ListNotations.
 Local Open Scope char_scope.
@@ -51,8 +51,8 @@ Lemma harvest_S f s0 : harvest (S f) s0 =
     let s := trim s0 in
     if starts (L "Result<") s then
       match strip_wrapped "Result<" s with
-      | Some inner => match find_char "," inner with
-                      | Some i => harvest f (trim (firstn i inner)) ++ harvest f (trim (skipn (S i) inner))
+      | Some inner => match find_top inner with
+                      | Some (a, r) => harvest f (trim a) ++ harvest f (trim r)
                       | None => harvest f inner end
       | None => [] end
     else if starts (L "Option<") s then
@@ -61,30 +61,25 @@ Lemma harvest_S f s0 : harvest (S f) s0 =
       match strip_wrapped "Vec<" s with Some inner => harvest f inner | None => [] end
     else if starts (L "HashMap<") s || starts (L "BTreeMap<") s then
       match (if starts (L "HashMap<") s then strip_wrapped "HashMap<" s else strip_wrapped "BTreeMap<" s) with
-      | Some inner => match find_char "," inner with
-                      | Some i => harvest f (trim (firstn i inner)) ++ harvest f (trim (skipn (S i) inner))
+      | Some inner => match find_top inner with
+                      | Some (a, r) => harvest f (trim a) ++ harvest f (trim r)
                       | None => [] end
       | None => [] end
     else if starts (L "HashSet<") s || starts (L "BTreeSet<") s then
       match (if starts (L "HashSet<") s then strip_wrapped "HashSet<" s else strip_wrapped "BTreeSet<" s) with
       | Some inner => harvest f inner | None => [] end
     else if starts (L "(") s && ends_with ")" s && negb (str_eqb s (L "()")) then
-      flat_map (fun p => harvest f (trim p)) (split_naive "," (mid 1 1 s))
+      flat_map (fun p => harvest f (trim p)) (split_top_level (mid 1 1 s))
     else if starts (L "&") s then harvest f (strip_amps s)
     else if custom_name s then [s] else [].
 Proof. reflexivity. Qed.
 
-(* splitting "K, V" at the first comma when K prints no comma *)
-Lemma first_comma_split k v : wf k -> wf v -> multi k = false ->
-  find_char "," (tts k ++ L ", " ++ tts v) = Some (List.length (tts k)) /\
-  trim (firstn (List.length (tts k)) (tts k ++ L ", " ++ tts v)) = tts k /\
-  trim (skipn (S (List.length (tts k))) (tts k ++ L ", " ++ tts v)) = tts v.
-Proof. intros Hk Hv Hm. pose proof (multi_nocomma k Hk Hm) as Hnc.
-  cbn [L list_ascii_of_string app]. split; [apply find_char_nocomma; auto|]. split.
-  - rewrite firstn_app, firstn_all, Nat.sub_diag. simpl firstn. rewrite app_nil_r. apply trim_tight, tts_tight; auto.
-  - replace (S (List.length (tts k))) with (List.length (tts k ++ [","])) by (rewrite app_length; simpl; lia).
-    replace (tts k ++ "," :: " " :: tts v) with ((tts k ++ [","]) ++ " " :: tts v) by (rewrite <- app_assoc; reflexivity).
-    rewrite skipn_app, skipn_all, Nat.sub_diag. cbn [skipn app]. apply trim_sp_tight, tts_tight; auto. Qed.
+(* splitting "K, V" at the first top-level comma *)
+Lemma first_comma_split k v : wf k -> wf v ->
+  find_top (tts k ++ L ", " ++ tts v) = Some (tts k, " " :: tts v) /\
+  trim (tts k) = tts k /\ trim (" " :: tts v) = tts v.
+Proof. intros Hk Hv. cbn [L list_ascii_of_string app]. split; [apply top_first, tts_transp; auto|].
+  split; [apply trim_tight, tts_tight; auto|apply trim_sp_tight, tts_tight; auto]. Qed.
 
 Fixpoint unref (t : rty) : rty := match t with RRef u => unref u | _ => t end.
 Lemma strip_amps_tts t : wf t -> strip_amps (tts t) = tts (unref t).
@@ -128,15 +123,13 @@ Ltac tagtests Hp c n' J :=
           ?(proj1 (strip_wrapped_path "BTreeSet<" (L "BTreeSet") (c :: n') J eq_refl eq_refl ltac:(repeat constructor) Hp)).
 
 Theorem harvest_names : forall fuel t, height t < fuel -> wf t -> heads_known t ->
-  kf_result_ok_has_comma t = false -> kf_tuple_elem_has_comma t = false ->
   same_set (harvest fuel (tts t)) (names t).
 Proof.
-  induction fuel as [|f IH]; intros t Hf Hw Hk Hkr Hkt; [lia|].
+  induction fuel as [|f IH]; intros t Hf Hw Hk; [lia|].
   rewrite harvest_S. cbv zeta. rewrite (trim_tight _ (tts_tight _ Hw)).
   destruct t as [n args|t|l].
   - (* path *)
-    simpl in Hw, Hkr, Hkt. destruct Hw as ((Hne & Hp) & (Har1 & Har2 & Har3) & Ha). apply wf_list in Ha.
-    apply orb_false_elim in Hkr as [Hkr0 Hkr]. apply existsb_false_Forall in Hkr. apply existsb_false_Forall in Hkt.
+    simpl in Hw. destruct Hw as ((Hne & Hp) & (Har1 & Har2 & Har3) & Ha). apply wf_list in Ha.
     destruct n as [|c n']; [congruence|].
     assert (Hc : plain c) by (inversion Hp; auto).
     destruct args as [|a rest].
@@ -150,22 +143,19 @@ Proof.
     + simpl in Hk. destruct Hk as [Hhead Hkargs]. apply (proj1 (hk_list (a :: rest))) in Hkargs.
       rewrite tts_path_cons. set (J := join (L ", ") (map tts (a :: rest))).
       inversion Ha as [|? ? Hwa Hwrest]; subst. inversion Hkargs as [|? ? Hka Hkrest]; subst.
-      inversion Hkr as [|? ? Hkra Hkrrest]; subst. inversion Hkt as [|? ? Hkta Hktrest]; subst.
       assert (Hsub : forall x, In x (a :: rest) -> same_set (harvest f (tts x)) (names x)).
       { intros x Hx. apply IH.
         - simpl in Hf. pose proof (max_fold_le (a :: rest) x Hx). simpl in H. lia.
         - rewrite Forall_forall in Ha; auto.
-        - rewrite Forall_forall in Hkargs; auto.
-        - rewrite Forall_forall in Hkr; auto.
-        - rewrite Forall_forall in Hkt; auto. }
+        - rewrite Forall_forall in Hkargs; auto. }
       assert (Hone : rest = [] -> same_set (harvest f J) (names (RPath (c :: n') [a]))).
       { intros ->. unfold J. simpl map. rewrite join_one. rewrite names_path_cons. simpl flat_map. rewrite app_nil_r. apply Hsub; left; auto. }
-      assert (Htwo : forall (d : list str) v, rest = [v] -> multi a = false ->
-                match find_char "," J with
-                | Some i => harvest f (trim (firstn i J)) ++ harvest f (trim (skipn (S i) J))
+      assert (Htwo : forall (d : list str) v, rest = [v] ->
+                match find_top J with
+                | Some (a0, r0) => harvest f (trim a0) ++ harvest f (trim r0)
                 | None => d end = harvest f (tts a) ++ harvest f (tts v)).
-      { intros d v -> Hma. unfold J. change (map tts [a; v]) with [tts a; tts v]. rewrite join_cons2, join_one.
-        inversion Hwrest; subst. destruct (first_comma_split a v Hwa H1 Hma) as (E1 & E2 & E3). rewrite E1, E2, E3. reflexivity. }
+      { intros d v ->. unfold J. change (map tts [a; v]) with [tts a; tts v]. rewrite join_cons2, join_one.
+        inversion Hwrest; subst. destruct (first_comma_split a v Hwa H1) as (E1 & E2 & E3). rewrite E1, E2, E3. reflexivity. }
       assert (Htwo' : forall v, rest = [v] -> same_set (harvest f (tts a) ++ harvest f (tts v)) (names (RPath (c :: n') [a; v]))).
       { intros v ->. rewrite names_path_cons. simpl flat_map. rewrite app_nil_r. apply same_set_app; apply Hsub; simpl; auto. }
       tagtests Hp c n' J.
@@ -175,12 +165,11 @@ Proof.
         assert (rest = []) by (destruct rest; auto; exfalso; specialize (Har1 eq_refl); simpl in Har1; lia). subst rest. apply Hone; auto.
       * (* Result *) rewrite str_eqb_refl. cbv iota.
         rewrite (proj2 (strip_wrapped_path "Result<" (L "Result") (L "Result") J eq_refl eq_refl ltac:(repeat constructor) ltac:(repeat constructor)) eq_refl).
-        unfold is_name in Hkr0. rewrite str_eqb_refl in Hkr0. simpl andb in Hkr0.
         destruct rest as [|e [|x rest]].
         -- (* one argument: no comma in the printed inner type, the inner type is harvested *)
            assert (EJ : J = tts a) by (unfold J; simpl map; apply join_one).
-           rewrite EJ. rewrite (find_char_none (tts a)) by (apply multi_nocomma; auto). rewrite <- EJ. apply Hone; auto.
-        -- rewrite (Htwo _ e eq_refl Hkr0). apply Htwo'; auto.
+           rewrite EJ. rewrite (top_none (tts a)) by (apply tts_transp; auto). rewrite <- EJ. apply Hone; auto.
+        -- rewrite (Htwo _ e eq_refl). apply Htwo'; auto.
         -- exfalso. specialize (Har3 eq_refl). simpl in Har3. lia.
       * (* Vec *) change (str_eqb (L "Vec") (L "Result")) with false. change (str_eqb (L "Vec") (L "Option")) with false. rewrite str_eqb_refl. cbv iota.
         rewrite (proj2 (strip_wrapped_path "Vec<" (L "Vec") (L "Vec") J eq_refl eq_refl ltac:(repeat constructor) ltac:(repeat constructor)) eq_refl).
@@ -189,12 +178,12 @@ Proof.
         change (str_eqb (L "HashMap") (L "Vec")) with false. rewrite str_eqb_refl. simpl orb. cbv iota.
         rewrite (proj2 (strip_wrapped_path "HashMap<" (L "HashMap") (L "HashMap") J eq_refl eq_refl ltac:(repeat constructor) ltac:(repeat constructor)) eq_refl).
         destruct (Har2 eq_refl) as [|(k & v & Ekv & Hmk)]; [discriminate|]. inversion Ekv; subst k rest.
-        rewrite (Htwo _ v eq_refl Hmk). apply Htwo'; auto.
+        rewrite (Htwo _ v eq_refl). apply Htwo'; auto.
       * (* BTreeMap *) change (str_eqb (L "BTreeMap") (L "Result")) with false. change (str_eqb (L "BTreeMap") (L "Option")) with false.
         change (str_eqb (L "BTreeMap") (L "Vec")) with false. change (str_eqb (L "BTreeMap") (L "HashMap")) with false. rewrite str_eqb_refl. simpl orb. cbv iota.
         rewrite (proj2 (strip_wrapped_path "BTreeMap<" (L "BTreeMap") (L "BTreeMap") J eq_refl eq_refl ltac:(repeat constructor) ltac:(repeat constructor)) eq_refl).
         destruct (Har2 eq_refl) as [|(k & v & Ekv & Hmk)]; [discriminate|]. inversion Ekv; subst k rest.
-        rewrite (Htwo _ v eq_refl Hmk). apply Htwo'; auto.
+        rewrite (Htwo _ v eq_refl). apply Htwo'; auto.
       * (* HashSet *) change (str_eqb (L "HashSet") (L "Result")) with false. change (str_eqb (L "HashSet") (L "Option")) with false.
         change (str_eqb (L "HashSet") (L "Vec")) with false. change (str_eqb (L "HashSet") (L "HashMap")) with false.
         change (str_eqb (L "HashSet") (L "BTreeMap")) with false. rewrite str_eqb_refl. simpl orb. cbv iota.
@@ -206,18 +195,16 @@ Proof.
         rewrite (proj2 (strip_wrapped_path "BTreeSet<" (L "BTreeSet") (L "BTreeSet") J eq_refl eq_refl ltac:(repeat constructor) ltac:(repeat constructor)) eq_refl).
         assert (rest = []) by (destruct rest; auto; exfalso; specialize (Har1 eq_refl); simpl in Har1; lia). subst rest. apply Hone; auto.
   - (* reference *)
-    simpl in Hw, Hk, Hkr, Hkt, Hf. rewrite tts_ref.
+    simpl in Hw, Hk, Hf. rewrite tts_ref.
     cbn [L list_ascii_of_string starts Ascii.eqb Bool.eqb andb orb].
     change ("&"%char :: tts t) with (tts (RRef t)). rewrite (strip_amps_tts (RRef t)) by (simpl; auto).
     cbn [unref]. destruct (unref_facts t Hw Hk) as (A & B & C & D & E & F & G & H).
     change (names (RRef t)) with (names t). rewrite <- E. apply IH; try congruence; auto. lia.
   - (* tuple *)
-    simpl in Hw, Hk, Hkr, Hkt. apply wf_list in Hw. apply hk_list in Hk.
+    simpl in Hw, Hk. apply wf_list in Hw. apply hk_list in Hk.
     destruct l as [|a l].
     + rewrite tts_unit. apply same_set_refl.
     + rewrite tts_tuple. set (J := join (L ", ") (map tts (a :: l))).
-      apply orb_false_elim in Hkt as [Hmul Hkt]. apply existsb_false_Forall in Hmul.
-      apply existsb_false_Forall in Hkt. apply existsb_false_Forall in Hkr.
       assert (Hends : ends_with ")" ("(" :: J ++ [")"]) = true).
       { change ("(" :: J ++ [")"]) with (("(" :: J) ++ [")"]). apply ends_with_snoc. }
       assert (HJ : exists x J', J = x :: J').
@@ -234,11 +221,12 @@ Proof.
       assert (Hpar : starts (L "(") ("(" :: J ++ [")"]) = true) by reflexivity.
       rewrite Hpar, Hends, Hne. cbn [andb negb orb]. cbv iota.
       assert (Hmid : mid 1 1 ("(" :: J ++ [")"]) = J) by (apply (mid_wrap ["("] J [")"])).
-      rewrite Hmid. unfold J, split_naive.
-      assert (Hnc : Forall nocomma (map tts (a :: l))).
-      { rewrite Forall_forall in *. intros w Hwin. apply in_map_iff in Hwin as (x & <- & Hx). apply multi_nocomma; auto. }
-      change (map tts (a :: l)) with (tts a :: map tts l) in *. inversion Hnc; subst.
-      rewrite split_naive_join by auto. simpl rev. simpl app.
+      rewrite Hmid. unfold J.
+      assert (Htp : Forall (transp 0%Z) (map tts (a :: l))).
+      { apply Forall_forall. intros w Hwin. apply in_map_iff in Hwin as (x & <- & Hx). apply tts_transp.
+        rewrite Forall_forall in Hw. auto. }
+      change (map tts (a :: l)) with (tts a :: map tts l) in *. inversion Htp; subst.
+      rewrite split_top_level_join by auto.
       assert (Hwa : wf a) by (inversion Hw; auto). assert (Hwl : Forall wf l) by (inversion Hw; auto).
       cbn [flat_map]. rewrite trim_tight by (apply tts_tight; auto).
       change (names (RTuple (a :: l))) with (names a ++ flat_map names l).
@@ -246,9 +234,7 @@ Proof.
       { intros x Hx. apply IH.
         - simpl in Hf. pose proof (max_fold_le (a :: l) x Hx). simpl in H. lia.
         - rewrite Forall_forall in Hw; auto.
-        - rewrite Forall_forall in Hk; auto.
-        - rewrite Forall_forall in Hkr; auto.
-        - rewrite Forall_forall in Hkt; auto. }
+        - rewrite Forall_forall in Hk; auto. }
       apply same_set_app. apply Hsub; left; auto.
       assert (Hl : forall l', incl l' l -> Forall wf l' ->
                 same_set (flat_map (fun p => harvest f (trim p)) (map (cons " ") (map tts l'))) (flat_map names l')).
